@@ -127,6 +127,19 @@ class AccessExecutor(C14Executor):
                     return self.ev(b.value, st)
         return super().get_attr(st, base, attr, node)
 
+    def e_Call(self, n, st):
+        """`dict.__init__(self, k=v, ...)` in a method of a dict subclass: the dict view of the instance (ghost), one entry per keyword."""
+        if isinstance(n.func, ast.Attribute) and ast.unparse(n.func) == "dict.__init__" and len(n.args) == 1 and all(k.arg for k in n.keywords):
+            out = []
+            for (s, objs) in self.ev_list(n.args, st):
+                for (s2, vals) in self.ev_list([k.value for k in n.keywords], s):
+                    if not isinstance(objs[0], VRef):
+                        raise ops.Unsupported(f"{self.loc(n)} dict.__init__ of something that is not an instance")
+                    s2.ghost["C14.dictview"] = dict(s2.ghost.get("C14.dictview", {}), **{str(objs[0].ref): {k.arg: v for k, v in zip(n.keywords, vals)}})
+                    out.append((s2, NONE))
+            return out
+        return super().e_Call(n, st)
+
     def call_method(self, st, obj, name, args, kwargs, node):
         if isinstance(obj, VExt) and obj.sort == STREAM:
             if name == "seek" and len(args) == 1 and not kwargs and isinstance(args[0], (VInt, VBool)):
@@ -522,3 +535,54 @@ def key_proved(mod, e, n, repo, contracts_of):
         res = None
     _KEYS[key] = res
     return res
+
+
+# ==================================================================================================================
+# ImageMetadata: the dict view (what `dict(i.get_metadata())` shows) mirrors the dataclass fields after __post_init__
+# ==================================================================================================================
+MD_FIELDS = ("unit_number", "image_number", "content_type", "width", "height")
+
+
+def run_metadata_mirror(repo, tier, contracts_of):
+    """EXTRA body (never raises): `ImageMetadata.__post_init__` on an instance with symbolic fields -- afterwards the dict view has exactly the
+    five keys of the statement's observation, each with the value of the field of the same name."""
+    from pyvc.verify import p_int, p_obj, p_opt, p_str, _eq
+    qn = "ImageMetadata.__post_init__"
+    base, lab = f"C14/data_types.py::{qn}", "dict-view-entries-are-the-fields-of-the-same-name"
+    try:
+        mod = loader.module(DT, repo)
+        fn = mod.functions.get(qn)
+        if fn is None:
+            raise ops.Unsupported("ImageMetadata has no __post_init__ (is it still a dict subclass?)")
+        reg = Registry()
+        for c in contracts_of(reg):
+            reg.add(c)
+        makers = {"unit_number": p_opt(p_int()), "image_number": p_int(), "content_type": p_str(), "width": p_opt(p_int()), "height": p_opt(p_int())}
+
+        def mirror(c):
+            me = c.args["self"]
+            view = c.st.ghost.get("C14.dictview", {}).get(str(me.ref))
+            # every entry __post_init__ writes is a field, with the value of that field.  (That all five keys are present is also the work of
+            # the class's __setattr__, which mirrors each field assignment of the generated __init__ -- not modelled, validated natively.)
+            if view is None or not view or not set(view) <= set(MD_FIELDS):
+                return z3.BoolVal(False)
+            flds = c.st.obj(me.ref).data
+            return z3.And([_eq(c.ex, c.st, view[f], flds[f]) for f in view])
+        c = FnContract(target=f"{DT}::{qn}", params=[("self", p_obj("ImageMetadata", makers))], ensures=[(lab, mirror)], raises=[], total=True,
+                       note="dict(i.get_metadata()) shows the five fields the accessor contracts speak about")
+        ex = AccessExecutor(mod, reg, Universe(repo))
+        ex.contract = c
+        ex.oid_prefix = base
+        got, _cov = verify.generate(ex, c, mod, fn)
+        ds = []
+        for _k, ob in got.items():
+            d = verify.discharge(ob, None, {})
+            d.update(function=f"{DT}::{qn}")
+            ds.append(d)
+        if f"{base}/ensures#{lab}" not in {d["id"] for d in ds}:
+            raise ops.Unsupported("no normal outcome")
+        return {"obligations": ds, "functions": [dict(mod.fn_info(qn), obligations=len(ds))]}
+    except Exception as e:  # noqa
+        g = ground_obligation(f"{base}/ensures#{lab}", False, f"not executable: {type(e).__name__}: {e}"[:300], DT, kind="ensures", definite=False)
+        g["function"] = f"{DT}::{qn}"
+        return {"obligations": [g], "functions": []}
